@@ -1,11 +1,246 @@
-(* C02 - placeholder property file: theorems are added as the corresponding model layer is proved.
-   The decisive oracle today is the extracted specification machine (Spec/Tree.v, Spec/Abs.v, Spec/Wf.v). *)
-From Coq Require Import NArith List.
-From FatVerif Require Import Model.Base Spec.Image Proofs.ImageProofs.
+(* C02 - a file is a growable byte array with a cursor.
+   Theorems over Model/FileM.v (the model of src/file.rs) for ANY FAT store satisfying the get/set laws, EVERY
+   cluster size cs > 0, every buffer and every offset (so offsets and lengths touching or straddling cluster
+   boundaries are instances, not samples).
+
+   Abstraction:  [content w l sz] = the first [sz] bytes of the concatenation of the data of the clusters [l].
+   [FileInv w h sz l] (Proofs/FileProofs.v) is the comment of file.rs made formal: the entry holds size [sz] and the
+   handle's first cluster; [l] is the FAT chain from the first cluster (empty iff there is none), duplicate-free,
+   inside 2..total+1 and allocated; length l = ceil(sz/cs); offset <= sz; current_cluster is the
+   ceil(offset/cs)-th cluster of the chain and None iff offset = 0.  [WorldInv]: the cached free count is exact
+   (C05's fi_inv) and every cluster holds cs bytes.
+   The specification machine is Spec/ByteFile.v: state (content, position), [bf_step] judges one outcome.
+
+   Several open files: every step theorem is stated for one handle in a world shared with others; the frame clause
+   of [C02_step_refines] says that any other handle whose chain is disjoint keeps its invariant and its content and
+   stays disjoint (a newly allocated cluster was free, so it belongs to nobody), hence interleaved histories on
+   different files are covered by induction ([C02_interleaved_refines]). *)
+From Coq Require Import NArith ZArith List Lia.
+From FatVerif Require Import Model.Base Model.Table Model.FileM Spec.ByteFile Spec.Image
+  Proofs.ImageProofs Proofs.TableProofs Proofs.FileProofs.
 Open Scope N_scope.
 
 Theorem C02_image_write_frame : forall bs im off o,
   (o < off \/ off + N.of_nat (length bs) <= o) -> img_get (img_write im off bs) o = img_get im o.
 Proof. exact img_write_outside. Qed.
 
+Section C02.
+Variable T : Type.
+Variable get : T -> N -> res fatv.
+Variable set : T -> N -> fatv -> res T.
+Variable val : T -> N -> fatv.
+Variable okc : N -> Prop.
+Variable okv : fatv -> Prop.
+Variable inv : T -> Prop.     (* store invariant kept by [set] (byte-level stores: slice geometry, bytes < 256) *)
+Hypothesis get_val : forall t c, inv t -> okc c -> get t c = Ok (val t c).
+Hypothesis set_ok : forall t c v, inv t -> okc c -> okv v ->
+  exists t', set t c v = Ok t' /\ inv t' /\ val t' c = v /\ forall c', c' <> c -> okc c' -> val t' c' = val t c'.
+Hypothesis okv_free : okv Free.
+Hypothesis okv_eoc : okv Eoc.
+Variable cs total : N.
+Hypothesis Hcs : 0 < cs.
+Hypothesis Hokc : forall x, 2 <= x < total + 2 -> okc x.
+Hypothesis Hokd : forall n, 2 <= n < total + 2 -> okv (Data n).
+
+Let FileInv := FileInv T val cs total.
+Let WorldInv := WorldInv T val inv cs total.
+Let content := content T.
+Let count_spec := count_spec T val.
+
+(* read: exactly the bytes at the cursor, never more than remain, progress unless nothing remains or n = 0;
+   the cursor advances by the count; the world (FAT, free count, data) is returned unchanged *)
+Theorem C02_read_spec : forall w h sz l n,
+  WorldInv w -> FileInv w h sz l ->
+  exists h' bs, file_read T get cs w h n = Ok (w, h', bs) /\
+    let k := len_N bs in
+    bs = firstn (N.to_nat k) (skipn (N.to_nat (h_off h)) (content w l sz)) /\
+    k <= N.min n (sz - h_off h) /\ (0 < k \/ N.min n (sz - h_off h) = 0) /\
+    h_off h' = h_off h + k /\ FileInv w h' sz l.
+Proof. exact (file_read_spec T get set val okc okv inv get_val set_ok cs total Hcs Hokc Hokd). Qed.
+
+(* seek: a negative target is rejected and nothing changes (the result carries no state); every other target,
+   however far beyond the end, is clamped to the size; the invariant - in particular "current_cluster is the right
+   element of the chain" - is re-established *)
+Theorem C02_seek_spec : forall w h sz l pos,
+  WorldInv w -> FileInv w h sz l ->
+  let tg := seek_target sz (h_off h) pos in
+  if (tg <? 0)%Z then file_seek T get cs w h pos = Err EInvalidInput
+  else exists h', file_seek T get cs w h pos = Ok (w, h', N.min (Z.to_N tg) sz) /\
+         h_off h' = N.min (Z.to_N tg) sz /\ FileInv w h' sz l.
+Proof. exact (file_seek_spec T get set val okc okv inv get_val set_ok cs total Hcs Hokc Hokd). Qed.
+
+(* truncate: the content is cut at the cursor, the clusters beyond the cut are free again and the number of free
+   clusters grows by exactly their number, no entry outside the file's chain and no data byte changes *)
+Theorem C02_truncate_spec : forall w h sz l,
+  WorldInv w -> FileInv w h sz l ->
+  let keep := N.to_nat (cdiv cs (h_off h)) in
+  exists w' h', file_truncate T get set total w h = Ok (w', h') /\
+    w_data T w' = w_data T w /\ h_off h' = h_off h /\
+    FileInv w' h' (h_off h) (firstn keep l) /\ WorldInv w' /\
+    content w' (firstn keep l) (h_off h) = firstn (N.to_nat (h_off h)) (content w l sz) /\
+    (forall x, In x (skipn keep l) -> val (w_fat T w') x = Free) /\
+    (forall x, ~ In x l -> okc x -> val (w_fat T w') x = val (w_fat T w) x) /\
+    count_spec (w_fat T w') 2 (N.to_nat total)
+    = count_spec (w_fat T w) 2 (N.to_nat total) + N.of_nat (length (skipn keep l)).
+Proof. exact (file_truncate_spec T get set val okc okv inv get_val set_ok okv_free okv_eoc cs total Hcs Hokc Hokd). Qed.
+
+(* write: never a panic; 0 < k <= n unless the buffer is empty or the cursor is at the largest file size;
+   the content is overwritten / extended at the cursor by the first k bytes; the chain stays or grows by ONE cluster
+   that was free; invariants (incl. the exact free count) are kept; FAT entries and data outside the file's (new)
+   chain are untouched.  It fails only with NotEnoughSpace, only when a new cluster is needed (cursor at the end of
+   the file on a cluster boundary) and no data cluster is free - and then nothing has been modified. *)
+Theorem C02_write_spec : forall w h sz l buf,
+  WorldInv w -> FileInv w h sz l ->
+  match file_write T get set cs total w h buf with
+  | Ok (w', h', k) =>
+      k <= len_N buf /\ (0 < k \/ buf = [] \/ h_off h = u32_max) /\ h_off h' = h_off h + k /\
+      exists l',
+        (l' = l \/ exists c, l' = l ++ [c] /\ val (w_fat T w) c = Free /\ 2 <= c < total + 2) /\
+        FileInv w' h' (N.max sz (h_off h + k)) l' /\ WorldInv w' /\
+        content w' l' (N.max sz (h_off h + k))
+        = write_at (content w l sz) (N.to_nat (h_off h)) (firstn (N.to_nat k) buf) /\
+        (forall x, ~ In x l' -> okc x -> val (w_fat T w') x = val (w_fat T w) x) /\
+        (forall x, ~ In x l' -> w_data T w' x = w_data T w x)
+  | Err e => e = ENotEnoughSpace /\ (forall x, 2 <= x < total + 2 -> val (w_fat T w) x <> Free) /\
+             h_off h = sz /\ sz mod cs = 0
+  | Panic => False
+  | OutOfFuel => False
+  end.
+Proof. exact (file_write_spec T get set val okc okv inv get_val set_ok okv_eoc cs total Hcs Hokc Hokd). Qed.
+
+(* extents: the clusters of the chain in order, sizes <= cs summing to the file size, and the bytes found at those
+   extents are the content *)
+Theorem C02_extents_spec : forall w h sz l,
+  WorldInv w -> FileInv w h sz l ->
+  exists ex, file_extents T get cs total w h = Ok ex /\ map fst ex = l /\ ext_total ex = sz /\
+             ext_bytes (w_data T w) ex = content w l sz /\ forall e, In e ex -> 0 <= snd e <= cs.
+Proof. exact (file_extents_spec T get set val okc okv inv get_val set_ok cs total Hcs Hokc Hokd). Qed.
+
+(* one operation of any kind: accepted by the byte-array machine, invariants kept, and every other open file
+   (disjoint chain) keeps its invariant, its content, and stays disjoint *)
+Theorem C02_step_refines : forall w h sz l op,
+  WorldInv w -> FileInv w h sz l ->
+  exists w' h' r sz' l', file_step T get set cs total w h op = (w', h', r) /\
+    WorldInv w' /\ FileInv w' h' sz' l' /\
+    bf_step (content w l sz, h_off h) op r = Some (content w' l' sz', h_off h') /\
+    (forall h2 sz2 l2, FileInv w h2 sz2 l2 -> disjoint l l2 ->
+       FileInv w' h2 sz2 l2 /\ content w' l2 sz2 = content w l2 sz2 /\ disjoint l' l2).
+Proof. exact (file_step_refines T get set val okc okv inv get_val set_ok okv_free okv_eoc cs total Hcs Hokc Hokd). Qed.
+
+(* any history on a new empty file: the model's outcomes are exactly a run of the byte-array machine from
+   (empty, 0), and the final abstract state is the final content and position *)
+Theorem C02_run_refines : forall ops w,
+  WorldInv w ->
+  exists w' h' rs sz' l', file_run T get set cs total w empty_file ops = (w', h', rs) /\
+    WorldInv w' /\ FileInv w' h' sz' l' /\ bf_run ([], 0) ops rs = Some (content w' l' sz', h_off h').
+Proof. exact (file_run_from_empty T get set val okc okv inv get_val set_ok okv_free okv_eoc cs total Hcs Hokc Hokd). Qed.
+
+(* the same from any file in any state *)
+Theorem C02_run_refines_from : forall ops w h sz l,
+  WorldInv w -> FileInv w h sz l ->
+  exists w' h' rs sz' l', file_run T get set cs total w h ops = (w', h', rs) /\
+    WorldInv w' /\ FileInv w' h' sz' l' /\
+    bf_run (content w l sz, h_off h) ops rs = Some (content w' l' sz', h_off h').
+Proof. exact (file_run_refines T get set val okc okv inv get_val set_ok okv_free okv_eoc cs total Hcs Hokc Hokd). Qed.
+
+(* several different files open and modified in interleaved order: [hs] are the open handles, [gs] their (size, chain)
+   pairs, [MultiInv] = every handle satisfies FileInv and the chains are pairwise disjoint, [views] = the list of
+   (content, position) pairs.  Every interleaving of operations (index of the handle, operation) is a run of the
+   machine of independent byte arrays. *)
+Theorem C02_interleaved_refines : forall ops w hs gs,
+  WorldInv w -> MultiInv T val cs total w hs gs ->
+  exists w' hs' rs gs', multi_run T get set cs total w hs ops = (w', hs', rs) /\
+    WorldInv w' /\ MultiInv T val cs total w' hs' gs' /\
+    bf_multi (views T w hs gs) ops rs = Some (views T w' hs' gs').
+Proof. exact (multi_run_refines T get set val okc okv inv get_val set_ok okv_free okv_eoc cs total Hcs Hokc Hokd). Qed.
+End C02.
+
+(* ---- non-vacuity on the pure store: cluster size 4, 8 data clusters, all free ---- *)
+Definition ex_world : fworld pfat :=
+  {| w_fat := fun _ => Free; w_fi := {| fi_free := Some 8; fi_next := None; fi_dirty := false |};
+     w_data := fun _ => [0; 0; 0; 0] |}.
+
+Example C02_example_world : WorldInv pfat (fun t c => t c) (fun _ => True) 4 8 ex_world /\ FileInv pfat (fun t c => t c) 4 8 ex_world empty_file 0 [].
+Proof.
+  split; [split; [exact I|split; [split; [reflexivity|exact I]|reflexivity]]|].
+  constructor; cbn; try reflexivity; try (intros _ []); try constructor.
+  - eexists. repeat split.
+  - discriminate.
+Qed.
+
+(* a non-trivial state satisfying the invariants: a 6-byte file in clusters 5 -> 3 (cluster size 4), cursor at 5,
+   so current_cluster is the SECOND cluster of the chain *)
+Definition ex_world2 : fworld pfat :=
+  {| w_fat := fun c => if c =? 5 then Data 3 else if c =? 3 then Eoc else Free;
+     w_fi := {| fi_free := Some 6; fi_next := Some 4; fi_dirty := true |};
+     w_data := fun c => if c =? 5 then [1; 2; 3; 4] else if c =? 3 then [5; 6; 0; 0] else [0; 0; 0; 0] |}.
+Definition ex_handle2 : fhandle :=
+  {| h_first := Some 5; h_cur := Some 3; h_off := 5;
+     h_entry := Some {| ed_first := Some 5; ed_size := Some 6; ed_dirty := true |} |}.
+
+Example C02_example_inv :
+  WorldInv pfat (fun t c => t c) (fun _ => True) 4 8 ex_world2 /\ FileInv pfat (fun t c => t c) 4 8 ex_world2 ex_handle2 6 [5; 3] /\
+  content pfat ex_world2 [5; 3] 6 = [1; 2; 3; 4; 5; 6].
+Proof.
+  split; [split; [exact I|split; [split; [reflexivity|cbn; discriminate]|]]|split; [|reflexivity]].
+  - intros c. cbn. destruct (c =? 5); [reflexivity|]. destruct (c =? 3); reflexivity.
+  - constructor; cbn; try reflexivity.
+    + eexists. repeat split.
+    + discriminate.
+    + apply chain_step with 3; [reflexivity|]. apply chain_end. intros n. discriminate.
+    + constructor; [intros [H|[]]; discriminate|]. constructor; [intros []|constructor].
+    + intros x [<-|[<-|[]]]; (split; [lia|cbn; discriminate]).
+    + discriminate.
+Qed.
+
+(* a history straddling cluster boundaries: 6 bytes (two write calls: 4 + 2), seek into the first cluster,
+   read up to the boundary, seek beyond the end (clamped), seek before the start (rejected), truncate *)
+Example C02_example_run :
+  let ops := [FWrite [1; 2; 3; 4; 5; 6]; FWrite [5; 6]; FSeek (FromStart 1); FRead 10; FRead 10; FSeek (FromEnd 7);
+              FSeek (FromCurrent (-7)); FSeek (FromStart 5); FTruncate; FSeek (FromStart 0); FRead 3] in
+  let '(w', h', rs) := file_run pfat pget pset 4 8 ex_world empty_file ops in
+  rs = [RCount 4; RCount 2; RPos 1; RBytes [2; 3; 4]; RBytes [5; 6]; RPos 6; RFail EInvalidInput; RPos 5; RDone; RPos 0;
+        RBytes [1; 2; 3]]
+  /\ h_size h' = Some 5 /\ h_first h' = Some 2 /\ w_fat pfat w' 2 = Data 3 /\ w_fat pfat w' 3 = Eoc
+  /\ fi_free (w_fi pfat w') = Some 6
+  /\ bf_run ([], 0) ops rs = Some ([1; 2; 3; 4; 5], 3).
+Proof. vm_compute. repeat split. Qed.
+
+(* two new files written alternately: their clusters interleave on disk (2,4 and 3,5), their contents do not mix *)
+Example C02_example_interleaved :
+  let ops := [(O, FWrite [1; 2; 3; 4]); (S O, FWrite [9; 9; 9; 9]); (O, FWrite [5; 6]); (S O, FWrite [8]); (O, FSeek (FromStart 0));
+              (S O, FSeek (FromStart 2)); (O, FRead 4); (O, FRead 4); (S O, FTruncate); (S O, FSeek (FromStart 0)); (S O, FRead 9)] in
+  MultiInv pfat (fun t c => t c) 4 8 ex_world [empty_file; empty_file] [(0, []); (0, [])] /\
+  let '(w', hs', rs) := multi_run pfat pget pset 4 8 ex_world [empty_file; empty_file] ops in
+  rs = [RCount 4; RCount 4; RCount 2; RCount 1; RPos 0; RPos 2; RBytes [1; 2; 3; 4]; RBytes [5; 6]; RDone; RPos 0; RBytes [9; 9]]
+  /\ map h_first hs' = [Some 2; Some 3] /\ w_fat pfat w' 2 = Data 4 /\ w_fat pfat w' 3 = Eoc /\ w_fat pfat w' 5 = Free
+  /\ bf_multi [([], 0); ([], 0)] ops rs = Some [([1; 2; 3; 4; 5; 6], 6); ([9; 9], 2)].
+Proof.
+  split.
+  - split; [reflexivity|]. split.
+    + intros [|[|i]] h g Hh Hg; cbn in Hh, Hg; [| |destruct i; discriminate];
+        injection Hh as <-; injection Hg as <-; apply C02_example_world.
+    + intros [|[|i]] j g1 g2 _ H1 _; cbn in H1; [| |destruct i; discriminate]; injection H1 as <-; intros x [].
+  - vm_compute. repeat split.
+Qed.
+
+(* why [FileInv] is a hypothesis of the seek theorem: on a (corrupt) volume whose chain is shorter than the size
+   says, File::seek stops at the end of the last cluster ("cluster chain ends before the new position"), so the
+   result is not min(target, size).  Size 10, cluster size 4, chain = [2] only: seek(Start(9)) = 4. *)
+Example C02_seek_short_chain_witness :
+  let w := {| w_fat := (fun c => if c =? 2 then Eoc else Free) : pfat;
+              w_fi := {| fi_free := None; fi_next := None; fi_dirty := false |}; w_data := fun _ => [0; 0; 0; 0] |} in
+  let h := file_new (Some 2) (Some {| ed_first := Some 2; ed_size := Some 10; ed_dirty := false |}) in
+  match file_seek pfat pget 4 w h (FromStart 9) with Ok (_, h', p) => p = 4 /\ h_cur h' = Some 2 | _ => False end.
+Proof. vm_compute. split; reflexivity. Qed.
+
 Print Assumptions C02_image_write_frame.
+Print Assumptions C02_read_spec.
+Print Assumptions C02_seek_spec.
+Print Assumptions C02_truncate_spec.
+Print Assumptions C02_write_spec.
+Print Assumptions C02_extents_spec.
+Print Assumptions C02_step_refines.
+Print Assumptions C02_run_refines.
+Print Assumptions C02_run_refines_from.
+Print Assumptions C02_interleaved_refines.
